@@ -87,3 +87,7 @@ func mapVal[M any](m M) M { return m }
 
 // lastCallee(t, f): the most recent call in t was a call of f.
 func lastCallee[F any](t traceT, f F) bool { return t.n > 0 }
+
+// ghostIntAtEntry(name, key): the ghost field as it was when the function (or
+// the call, at a call site) started — for a key computed in the current state.
+func ghostIntAtEntry(name string, key interface{}) int { return 0 }
